@@ -108,6 +108,12 @@ fn tag_table() -> Vec<(u32, Ty, u8)> {
     for (tag, ty) in FILE_GROUP {
         v.push((tag, ty, 10));
     }
+    // distractors: legacy / alias tags that no accessor is documented to read; whatever they hold,
+    // it must not leak into an accessor's answer (OLDFILENAMES, FILEUIDS, FILEGIDS, ARCHIVESIZE,
+    // ORIGBASENAMES, ORIGDIRNAMES, FILENAMES, EVR, NVRA, NEVRA, EPOCHNUM, SIGSIZE, SIGMD5)
+    for (tag, ty) in [(1027u32, Ty::StrArr), (1031, Ty::U32Arr), (1032, Ty::U32Arr), (1046, Ty::U32), (1120, Ty::StrArr), (1121, Ty::StrArr), (5000, Ty::StrArr), (5013, Ty::Str), (1196, Ty::Str), (5016, Ty::Str), (5019, Ty::U32), (257, Ty::U32), (261, Ty::Str)] {
+        v.push((tag, ty, 0));
+    }
     v
 }
 
